@@ -257,7 +257,7 @@ func Run(r *vk.Run) {
 	keys := world.NewKeys("proposer")
 	shapes := []string{"xx", "ex", "xe"}
 	if !r.Quick() {
-		shapes = []string{"xx", "ex", "xe", "xxx", "eex", "xee", "xexx", "exxe"}
+		shapes = []string{"xx", "ex", "xe", "xxx", "eex", "xee", "xexx", "exxe", "xxexx", "eexex"}
 	}
 	type tuple struct {
 		p     *world.Produced
